@@ -12,6 +12,11 @@
 // set round trip, with the whole import closure built again, or anew for every
 // message), source and destination independently, crossed with the isolated
 // operations and swept around the 2-step sequences.
+// And the configuration of a dynamic message (cfg.go): made by dynamic.NewMessage,
+// with an extension registry, with a message factory, or having learnt extension
+// fields from its owner, over messages of an extendable type with extension
+// fields set; source and destination independently, crossed with the isolated
+// operations and swept around the 2-step sequences.
 // The real adapters from inprocgrpc run on every case; the oracle is in oracle.go
 // (equality, source unchanged, behavioural disjointness by in-place mutation,
 // destination replaced, refusal with an error and never a panic).
@@ -107,6 +112,9 @@ func main() {
 	if pr := provCheck(); len(pr) > 0 {
 		inconclusive(fmt.Sprintf("the descriptor provenances are not what they are meant to be: %v", pr))
 	}
+	if pr := cfgCheck(); len(pr) > 0 {
+		inconclusive(fmt.Sprintf("the configurations of the dynamic messages are not what they are meant to be: %v", pr))
+	}
 	if pr := mutatorCheck(); len(pr) > 0 {
 		inconclusive(fmt.Sprintf("disjointness test mis-calibrated: %v", pr))
 	}
@@ -136,6 +144,10 @@ func main() {
 		self(k)
 	}
 	enumerateSeqProv("raw", false, self)
+	for _, k := range enumerateCfg("raw", thorough) {
+		self(k)
+	}
+	enumerateSeqCfg("raw", false, self)
 	calProblems, calCases := seqCalibration()
 	if len(calProblems) > 0 {
 		inconclusive(fmt.Sprintf("the sequence grammar is mis-calibrated: %v", calProblems))
@@ -146,8 +158,9 @@ func main() {
 	distinct := map[string]bool{}
 	distinctSeq := map[uint64]struct{}{}
 	seqEvals := map[int]int{}
-	var seqSamples, provSamples []interface{}
+	var seqSamples, provSamples, cfgSamples []interface{}
 	provEvals, seqProvEvals := 0, 0
+	cfgEvals, seqCfgEvals := 0, 0
 	perClass := map[string]int{}
 	var samples []interface{}
 	sampled := map[string]bool{}
@@ -159,7 +172,21 @@ func main() {
 		if o.Internal != "" {
 			inconclusive(o.Internal)
 		}
-		if len(k.Seq) > 0 && k.hasProv() {
+		if len(k.Seq) > 0 && k.hasCfg() {
+			seqCfgEvals++
+			if o.Reached || len(o.Findings) > 0 {
+				h := hash64(k.Adapter + "|" + k.Src + "|" + k.SrcRep + o.EffKey)
+				if _, dup := distinctSeq[h]; !dup {
+					distinctSeq[h] = struct{}{}
+					perClass[fmt.Sprintf("%s|Seq|2 steps, dynamic message configuration sweep", k.Adapter)]++
+				}
+			}
+			if sk := "seqcfg|" + k.SrcRep + "|" + k.Seq[0].DstRep; !sampled[sk] && len(cfgSamples) < 14 && k.Adapter == "ProtoCloner" && k.Src == "mopt-filler" &&
+				k.SrcRep == "dyn+er" && k.Seq[0].Op == "Clone" && k.Seq[1].Dst == "fill" && k.Seq[1].Src == 1 && k.Seq[1].Mod == "deep" {
+				sampled[sk] = true
+				cfgSamples = append(cfgSamples, map[string]interface{}{"case": k, "reads": describe(k), "observed": o.Observed, "in_place_mutations": o.Mutations})
+			}
+		} else if len(k.Seq) > 0 && k.hasProv() {
 			seqProvEvals++
 			if o.Reached || len(o.Findings) > 0 {
 				h := hash64(k.Adapter + "|" + k.Src + "|" + k.SrcRep + o.EffKey)
@@ -197,7 +224,14 @@ func main() {
 				perClass[k.Adapter+"|"+k.Op+"|"+k.pairing()]++
 			}
 			sk := k.Op + "|" + k.pairing()
-			if k.hasProv() {
+			if k.hasCfg() {
+				cfgEvals++
+				if sk = "cfg|" + sk; !sampled[sk] && len(cfgSamples) < 10 && k.Adapter == "ProtoCloner" && k.Src == "mopt-ext-full" && k.expect() == "copy" && k.DstFill == "" && !k.hasProv() {
+					sampled[sk] = true
+					cfgSamples = append(cfgSamples, map[string]interface{}{"case": k, "expected": k.expect(), "observed": o.Observed, "in_place_mutations": o.Mutations,
+						"equality_as_dynamic_messages_demanded": demandDynEqual(k.Op, k.SrcRep, k.DstRep)})
+				}
+			} else if k.hasProv() {
 				provEvals++
 				if sk = "prov|" + sk + "|" + k.SrcRep + "|" + k.DstRep; !sampled[sk] && len(provSamples) < 8 && k.Adapter == "ProtoCloner" && k.Src == "trailer-full" && k.DstFill != "" &&
 					(k.SrcRep == "dyn@deps" || k.DstRep == "dyn@fresh") && k.SrcRep != "dyn@rebuilt" && k.DstRep != "dyn@set" {
@@ -239,6 +273,15 @@ func main() {
 	}
 	for _, a := range adapterNames {
 		enumerateSeqProv(a, thorough, process)
+	}
+	// the configuration of a dynamic message (extension registry, message factory, learnt fields): isolated operations, then 2-step sequences
+	for _, a := range provAdapters() {
+		for _, k := range enumerateCfg(a, thorough) {
+			process(k)
+		}
+	}
+	for _, a := range adapterNames {
+		enumerateSeqCfg(a, thorough, process)
 	}
 	for _, fp := range aggOrder {
 		a := agg[fp]
@@ -286,18 +329,31 @@ func main() {
 			"The dimension is then swept around the 2-step sequences: for each of the 32 pairs (representation of the base object, representation of every dynamic destination the steps make), every 2-step sequence with modifications in {nothing, everything in place} " +
 			"over provenance_sequence_pool. It is not crossed with the overlapping copies and the 3-step sequences. " +
 			"Fingerprints class two dynamic messages by the relation of their descriptor objects (@descs=separate: two objects for one type; @descs=one-uncached: one object that is not the cached one; @desc=uncached where only one side is dynamic or a refusal is due), the replay names the provenances. A failing case of this part of the grammar is first run again with every dynamic message over the cached descriptor; a clause that fails there too is reported in the class of that base case, so a class with @desc names something in which the descriptor object plays a part. " +
-			"Non-trivial and distinct as for the isolated operations and the sequences.",
-		"samples":                         append(append(samples, seqSamples...), provSamples...),
+			"Non-trivial and distinct as for the isolated operations and the sequences. " +
+			"Configuration of a dynamic message: a dynamic representation also says how the message was made: dyn = dynamic.NewMessage (recognises the fields of its descriptor only), dyn+er = NewMessageWithExtensionRegistry over a registry that holds four extensions " +
+			"(string, bytes, repeated bytes, message) of google.protobuf.MethodOptions declared in a file that is not linked in, dyn+mf = NewMessageWithMessageFactory over a factory with that registry and a known-type registry with defaults (nested messages of linked-in types are held as generated structs), " +
+			"dyn+xf = a plain dynamic message that has learnt its extension fields because its owner read them through their descriptors. The pool has 7 messages of the extendable type, 5 of them with extension fields set (to the generated form and to a plain dynamic message they are unrecognised fields). " +
+			"Source and destination take their configuration independently: all 21 ordered pairs over gen | dyn | dyn+er | dyn+mf | dyn+xf with at least one configured side are crossed with the whole message pool, with Clone, Copy into an empty and a pre-populated destination, copies from and to non-proto pointers, " +
+			"copies into another message type (quick: from the last message of each type into the next type of the pool; thorough: from every message into every other type), for the four adapters and the two delegating ones; Clone and the copies between two messages of one configuration are crossed with the four uncached descriptor provenances as well; " +
+			"and the dimension is swept around the 2-step sequences (modifications in {nothing, everything in place}) over configuration_sequence_pool. " +
+			"The oracle is the one of the isolated operation with a second clause of equality: where both source and result are dynamic messages and the result is a clone, or a copy into a destination that recognises the same things by construction (both plain, or both over the registry), " +
+			"the result must be dynamic.Equal to the source as it was when the operation began (same fields recognised, same values, same unrecognised fields; clause not-equal:as-dynamic), and the source must still be dynamic.Equal to that snapshot afterwards; the in-place mutation test and the modifications reach recognised extension fields like any other field. " +
+			"Fingerprints name the configurations that met as +cfg=<source>/<destination> (plain, er, mf, xf, - for a side that is not a dynamic message; one name when both agree); a failing case of this part is first run again with plain dynamic messages, as for the provenance.",
+		"samples":                         append(append(append(samples, seqSamples...), provSamples...), cfgSamples...),
 		"exhaustive":                      true,
 		"pool_messages":                   len(pool),
 		"message_types":                   len(typeOrder),
 		"adapters":                        adapterNames,
 		"self_check_cases":                selfCases,
-		"sequence_evaluations":            map[string]int{"2 steps": seqEvals[2], "3 steps": seqEvals[3], "2 steps, descriptor provenance sweep": seqProvEvals},
+		"sequence_evaluations":            map[string]int{"2 steps": seqEvals[2], "3 steps": seqEvals[3], "2 steps, descriptor provenance sweep": seqProvEvals, "2 steps, dynamic message configuration sweep": seqCfgEvals},
 		"descriptor_provenances":          append([]string{"cached (the descriptor of the generated type)"}, provKinds[1:]...),
 		"representations":                 append([]string{"gen"}, dynReps...),
 		"provenance_evaluations":          map[string]int{"isolated operations": provEvals, "2-step sequences": seqProvEvals},
 		"provenance_representation_pairs": len(repPairs()),
+		"dynamic_message_configurations":  append([]string{"plain (dynamic.NewMessage)"}, cfgKinds[1:]...),
+		"configuration_evaluations":       map[string]int{"isolated operations": cfgEvals, "2-step sequences": seqCfgEvals},
+		"configuration_pairs":             len(cfgPairs()),
+		"configuration_sequence_pool":     seqCfgPoolNames(thorough),
 		"provenance_adapters":             provAdapters(),
 		"provenance_sequence_pool":        seqProvPoolNames(thorough),
 		"sequence_distinct_nontrivial":    len(distinctSeq),
@@ -310,6 +366,8 @@ func main() {
 	}, []string{
 		"descriptor provenance: every descriptor object describes the message type exactly as the generated code does (same FileDescriptorProto; checked before the run); descriptors with the same full name and different content are not in the grammar, nor are descriptors obtained over a live reflection connection (they are built the same way as @set)",
 		"descriptor provenance: the delegating configurations CloneFunc(ProtoCloner.Clone) / CopyFunc(ProtoCloner.Copy) run the provenance grammar of the isolated operations only; overlapping copies and 3-step sequences use the cached descriptor only",
+		"configuration of a dynamic message: the registry holds the extensions of one message type (MethodOptions) only; extension fields inside NESTED messages, a known-type registry other than the default one, and two different registries on the two sides of a copy are not in the grammar; overlapping copies and 3-step sequences use plain dynamic messages only; with the provenance of the descriptor the dimension is crossed for Clone and same-configuration copies only",
+		"equality as dynamic messages (dynamic.Equal) is demanded of a clone, and of a copy only where source and destination recognise the same fields by construction (both plain, or both over the registry); between a side that recognises an extension and one that cannot, and for a destination that has learnt fields of its own (xf), equality of the content (wire form through the generated type) is what is demanded",
 		"*dynamic.Message exposes no protoreflect view: its content is mutated through its public accessors (stored byte slices, nested messages and unknown-field records are handed out by reference; SetRepeatedField/PutMapField write into the stored slice/map)",
 		"equality of a dynamic message is judged on its deterministic wire form parsed into the generated type",
 		"the clone and copy functions given to CloneFunc/CopyFunc are the checker's own; they pass the same oracle on the whole grammar, sequences included, before the adapters are run (otherwise exit 2)",
